@@ -272,7 +272,7 @@ static void gen_table(Rng& r, Gen& g, int nd, int cls) {
     return;
   }
   uint64_t target;  // coefficient count
-  if (cls == 6 || cls == 7) cls = 2;    // (size class of the table itself: medium)
+  if (cls >= 6 && cls <= 8) cls = 2;    // (size class of the table itself: medium)
   switch (cls) { case 0: target = 1 + r.below(8); break; case 1: target = 50 + r.below(600); break; case 2: target = 800 + r.below(6000); break;
                  case 3: target = 30000 + r.below(50000); break; default: target = 220000 + r.below(150000); break; }
   // per-dimension size ~ target^(1/nd), at least order+1
@@ -353,6 +353,7 @@ int main(int argc, char** argv) {
   plan.push_back({3, 5});   // header overflow after the image has been written (cfitsio shifts the data by one block)
   plan.push_back({2, 6});   // primary header exactly full, coefficient array of several blocks
   plan.push_back({2, 7});   // ... and two cards short of full
+  plan.push_back({2, 8});   // ... and two cards over (full without whatever the writer put there last)
 
   long total_faults = 0, total_fired = 0;
   for (size_t it = 0; it < plan.size(); it++) {
@@ -384,10 +385,10 @@ int main(int argc, char** argv) {
     int na = cls == 5 ? 30 : r.range(0, 3) == 0 ? r.range(1, 3) : 0;
     // class 6: the primary header fills its 36-card block exactly (35 or 36 cards with END): anything appended to it later
     // (by a writer that returns to the header after the data) makes cfitsio insert a block and MOVE the data unit
-    if (cls == 6 || cls == 7) {
+    if (cls >= 6 && cls <= 8) {
       t.write_fits(path);
       fitsfile* ff; int st = 0, nk0 = 0; fits_open_diskfile(&ff, path.c_str(), READONLY, &st); fits_get_hdrspace(ff, &nk0, nullptr, &st); fits_close_file(ff, &st);
-      na = std::max(0, 34 - nk0 + (int)r.below(2) - (cls == 7 ? 2 : 0));    // cards without aux keys + aux keys + END = 35 or 36 (class 7: 33 or 34, room for exactly two more)
+      na = std::max(0, 34 - nk0 + (int)r.below(2) + (cls == 7 ? -2 : cls == 8 ? 2 : 0));    // cards without aux keys + aux keys + END = 35 or 36 (class 7: 33 or 34, room for exactly two more; class 8: 37 or 38, i.e. exactly full without the last two)
       stats["header_exactly_full_tables"]++; stats["header_exactly_full_cards"] = nk0 + na + 1;
     }
     for (int i = 0; i < na; i++) { std::string k = "AUXK" + std::to_string(i); std::string v = i == 0 ? "some value" : std::to_string(r.below(100000)); t.write_key(k.c_str(), v); }
